@@ -551,3 +551,14 @@ Definition ippo_masks {V} (ids : list agent) (infos : list (agent * V)) (g : nat
 (* code before 0c075e0: for agent_id, info in infos.items(): action_masks[homo_id].append(...) — the caller's key order *)
 Definition ippo_masks_pinned {V} (infos : list (agent * V)) (g : nat) : list (option V) :=
   map (fun p => Some (snd p)) (filter (fun p => Nat.eqb (fst (fst p)) g) infos).
+
+(* ------------------------------------------------------------------ deepening 3: vectorised IPPO — rows of a policy group *)
+(* every agent hands in E rows (one per sub-environment); np.array([...per agent...]) is [n_agents, E, n] and .view(logits.shape)
+   (masks) / the observation stacking make it [n_agents * E, n]: agent-major, env-minor *)
+Definition stack_rows {R} (ids : list agent) (d : list (agent * list R)) (g : nat) : list R :=
+  concat (map (fun a => match lookup_agent a d with Some rows => rows | None => [] end) (group_members ids g)).
+
+(* seeded variant (round 3): env-major stacking — row (e, k) instead of (k, e) *)
+Definition stack_rows_env_major {R} (E : nat) (ids : list agent) (d : list (agent * list R)) (g : nat) : list (option R) :=
+  concat (map (fun e => map (fun a => match lookup_agent a d with Some rows => nth_error rows e | None => None end) (group_members ids g))
+              (seq 0 E)).
